@@ -88,7 +88,14 @@ func genEQ(o *Out, r *Rng, n int, tier string) {
 	recs := []string{"a", "b", "c", "d", "e", "f"}
 	for i := 0; i < n; i++ {
 		ln := r.Intn(12)
+		if r.Chance(25) {
+			// long lists: around the word sizes a bookkeeping bitset would use, and well beyond
+			ln = []int{31, 32, 33, 34, 40, 63, 64, 65, 66, 70, 127, 128, 129, 130, 200, 300}[r.Intn(16)]
+		}
 		k := 1 + r.Intn(5)
+		if ln > 12 && r.Bool() {
+			k = ln // mostly distinct entries, so that a duplicated one matters
+		}
 		var x []string
 		for j := 0; j < ln; j++ {
 			x = append(x, itoa(int64(r.Intn(k)))+"."+itoa(int64(r.Intn(2))*999999999)+"."+recs[r.Intn(1+r.Intn(len(recs)))])
